@@ -253,6 +253,22 @@ pub struct ApplyRecord {
     pub seq: u64,
 }
 
+/// One `get`/`get_multi`/`scan_prefix` served by the state machine, with the caller context
+/// (which handle was used: the Raft core's, the ReadActor's or the embedded client's) — C13.
+#[derive(Debug, Clone)]
+pub struct ReadRecord {
+    pub node: u32,
+    pub inc: u64,
+    pub tag: &'static str,
+    pub keys: Vec<Bytes>,
+    pub seq: u64,
+    pub vtime_ms: u64,
+    /// `ReadLease::is_valid(now)` of this incarnation at the instant of the read
+    pub lease_valid: Option<bool>,
+    /// role of the node (core state hook view) at the instant of the read
+    pub role: i32,
+}
+
 #[derive(Debug, Clone)]
 pub struct SnapshotRecord {
     pub node: u32,
@@ -276,15 +292,20 @@ pub struct SmObserver {
     pub fail_apply_at_index: Option<u64>,
     pub reads: u64,
     pub seed: u64,
+    pub read_log: Vec<ReadRecord>,
+    pub lease: Option<Arc<d_engine_core::ReadLease>>,
+    pub oracle: Option<crate::oracle::OracleRef>,
 }
 
 pub type SmObsRef = Arc<Mutex<SmObserver>>;
 
 pub struct ObservedSm<S: StateMachine> {
-    pub inner: S,
+    pub inner: Arc<S>,
     pub node: u32,
     pub inc: u64,
     pub obs: SmObsRef,
+    /// which handle this is: "core" (Raft loop, handlers), "read_actor", "embedded"
+    pub tag: &'static str,
 }
 
 impl<S: StateMachine> std::fmt::Debug for ObservedSm<S> {
@@ -296,7 +317,33 @@ impl<S: StateMachine> std::fmt::Debug for ObservedSm<S> {
 impl<S: StateMachine> ObservedSm<S> {
     pub fn new(inner: S, node: u32, obs: &SmObsRef) -> Self {
         let inc = obs.lock().unwrap().live_incarnation;
-        ObservedSm { inner, node, inc, obs: obs.clone() }
+        ObservedSm { inner: Arc::new(inner), node, inc, obs: obs.clone(), tag: "core" }
+    }
+    /// A second handle on the same state machine whose reads are recorded under `tag`.
+    pub fn with_tag(&self, tag: &'static str) -> Self {
+        ObservedSm { inner: self.inner.clone(), node: self.node, inc: self.inc, obs: self.obs.clone(), tag }
+    }
+    fn record_read(&self, keys: Vec<Bytes>) {
+        let (lease, oracle) = {
+            let o = self.obs.lock().unwrap();
+            (o.lease.clone(), o.oracle.clone())
+        };
+        let lease_valid = lease.map(|l| l.is_valid(d_engine_core::now_ms()));
+        let role = oracle.map(|o| o.lock().unwrap().views.get(&self.node).map(|v| v.role).unwrap_or(-1)).unwrap_or(-1);
+        let mut o = self.obs.lock().unwrap();
+        o.reads += 1;
+        if o.read_log.len() < 200_000 {
+            o.read_log.push(ReadRecord {
+                node: self.node,
+                inc: self.inc,
+                tag: self.tag,
+                keys,
+                seq: crate::oracle::next_event_seq(),
+                vtime_ms: crate::seams::vnow_ms(),
+                lease_valid,
+                role,
+            });
+        }
     }
     fn fenced(&self) -> bool {
         self.obs.lock().unwrap().live_incarnation != self.inc
@@ -323,11 +370,11 @@ impl<S: StateMachine> StateMachine for ObservedSm<S> {
         self.inner.is_running()
     }
     fn get(&self, key: &[u8]) -> Result<Option<Bytes>, Error> {
-        self.obs.lock().unwrap().reads += 1;
+        self.record_read(vec![Bytes::copy_from_slice(key)]);
         self.inner.get(key)
     }
     fn get_multi(&self, keys: &[Bytes]) -> Result<Vec<Option<Bytes>>, Error> {
-        self.obs.lock().unwrap().reads += 1;
+        self.record_read(keys.to_vec());
         self.inner.get_multi(keys)
     }
     fn entry_term(&self, id: u64) -> Option<u64> {
@@ -475,7 +522,7 @@ impl<S: StateMachine> StateMachine for ObservedSm<S> {
         self.inner.reset().await
     }
     fn scan_prefix(&self, prefix: &[u8]) -> Result<ScanResult, Error> {
-        self.obs.lock().unwrap().reads += 1;
+        self.record_read(vec![Bytes::copy_from_slice(prefix)]);
         self.inner.scan_prefix(prefix)
     }
     async fn lease_background_cleanup(&self) -> Result<Vec<Bytes>, Error> {
